@@ -307,7 +307,7 @@ def oracle(run: runner.Run, oc: Outcome) -> None:
                     # leftovers of the sub-handlers of two short ids that are written under one name (one of the two is
                     # taken for finished through the other's record, and its children are never looked at again)
                     twins = [x.translate(_FLAT) for x in allspecs if _short_twin(x)]
-                    fam = bool(twins) and all(any(str(k).split('/', 1)[-1].startswith(tw[:40]) for tw in twins)
+                    fam = bool(twins) and all(any(str(k).split('/', 1)[-1].startswith(tw[:30]) for tw in twins)
                                               for k in list(left) + list(prog))
                     oc.add('C16/purge', 'short-ids-equal-after-sanitising' if fam else 'records-left',
                            f"{opid}: at quiescence {obj['metadata']['name']} still carries {left[:4]} "
